@@ -134,4 +134,64 @@ theorem enum_extension (env : Env) (henv : EnvWF env) (id id' n n' : String) (sr
   rw [this]
   simp [normalize, hfind', hfc']
 
+
+theorem insertIdxCtor_mem {c x : Nat × Ctor} : ∀ {l : List (Nat × Ctor)}, x ∈ insertIdxCtor c l → x = c ∨ x ∈ l := by
+  intro l
+  induction l with
+  | nil => intro h; simp [insertIdxCtor] at h; exact Or.inl h
+  | cons d ds ih =>
+    intro h
+    simp only [insertIdxCtor] at h
+    split at h
+    · simp at h; rcases h with h | h | h
+      · exact Or.inl h
+      · exact Or.inr (by simp [h])
+      · exact Or.inr (by simp [h])
+    · simp at h; rcases h with h | h
+      · exact Or.inr (by simp [h])
+      · rcases ih h with h' | h'
+        · exact Or.inl h'
+        · exact Or.inr (by simp [h'])
+
+theorem insertIdxCtor_sorted (c : Nat × Ctor) : ∀ (l : List (Nat × Ctor)),
+    l.Pairwise (fun a b => a.2.name ≤ b.2.name) → (insertIdxCtor c l).Pairwise (fun a b => a.2.name ≤ b.2.name) := by
+  intro l
+  induction l with
+  | nil => intro _; simp [insertIdxCtor]
+  | cons d ds ih =>
+    intro h
+    rw [List.pairwise_cons] at h
+    simp only [insertIdxCtor]
+    split
+    · rename_i hlt
+      have hcd : c.2.name ≤ d.2.name := by
+        rcases String.le_total c.2.name d.2.name with h' | h'
+        · exact h'
+        · exact absurd hlt (String.not_lt.mpr h')
+      rw [List.pairwise_cons]
+      refine ⟨?_, List.pairwise_cons.mpr h⟩
+      intro x hx
+      simp at hx
+      rcases hx with rfl | hx
+      · exact hcd
+      · exact String.le_trans hcd (h.1 x hx)
+    · rename_i hnlt
+      have hdc : d.2.name ≤ c.2.name := String.not_lt.mp hnlt
+      rw [List.pairwise_cons]
+      refine ⟨?_, ih h.2⟩
+      intro x hx
+      rcases insertIdxCtor_mem hx with rfl | hx'
+      · exact hdc
+      · exact h.1 x hx'
+
+/-- `#[sorted_constructors]`: the wire order is ascending in the constructor names (the order of
+Rust's `String`: lexicographic by scalar value = by UTF-8 bytes) -/
+theorem sorted_ctors_ascending (cs : List Ctor) : (wireCtors true cs).Pairwise (fun a b => a.2.name ≤ b.2.name) := by
+  simp only [wireCtors, if_true]
+  generalize indexCtors cs = l
+  induction l with
+  | nil => simp [sortIdxCtors]
+  | cons c rest ih => simp only [sortIdxCtors]; exact insertIdxCtor_sorted c _ ih
+
+
 end C13
